@@ -15,7 +15,7 @@ def gen_timed(ctx, n):
     bodies = ['{ c = c + 1 }', '{ }', '{ c = c + 1; call { d = c } }', '{ { c = c + 1 } forEach [1, 2, 3] }',
               '{ if (c > 5) then { c = c + 1 } else { c = c + 2 } }', '{ c = c + 1; [] spawn { c = c + 1 } }']
     for i in range(n):
-        kind = r.weighted([('while', 5), ('for0', 3), ('forlong', 2), ('recurse', 2), ('spawnchain', 2), ('waituntil', 2), ('terminating', 3)])
+        kind = r.weighted([('while', 5), ('for0', 3), ('forlong', 2), ('recurse', 2), ('spawnchain', 2), ('waituntil', 2), ('terminating', 3), ('sleeper', 3), ('waitfalse', 3)])
         body = r.choice(bodies)
         sched = r.chance(1, 2)
         if kind == 'while':
@@ -31,6 +31,16 @@ def gen_timed(ctx, n):
         elif kind == 'waituntil':
             core_ = 'while {true} do { waitUntil { c = c + 1; true }; sleep 0.003 }'
             sched = True
+        elif kind == 'sleeper':
+            # scripts that execute (almost) nothing: the run consists of sleeping
+            core_ = r.choice(['sleep 5', 'sleep 100', 'sleep 0.5', 'while {true} do { sleep 1 }', 'uiSleep 30', 'c = 1; sleep 2; c = 2', '[] spawn { sleep 50 }; [] spawn { sleep 60 }; sleep 70',
+                              'sleep 0.01; sleep 3'])
+            sched = True
+        elif kind == 'waitfalse':
+            # a wait whose condition never holds: false, or no boolean at all
+            core_ = r.choice(['waitUntil { false }', 'waitUntil { c = c + 1; false }', 'waitUntil { c > 1e9 }', 'waitUntil { sleep 1; false }', 'waitUntil { false }; c = -1'])
+            if 'sleep' in core_:
+                sched = True    # sleeping is an error in unscheduled code: the program would end
         else:
             core_ = 'for "_i" from 1 to %d do %s' % (r.below(20), body if body != '{ }' else '{ c = c + 1 }')
         prog = 'c = 0; ' + (('h = [] spawn { %s }' % core_) if sched else core_) + '; done = 1'
